@@ -45,11 +45,16 @@ func (e *Enc) inferVariant(fr *Frame, li *loopInfo) (variant, bool) {
 		if be, ok := fs.Cond.(*ast.BinaryExpr); ok {
 			var txt string
 			switch be.Op {
-			// measured in int64 so that an unsigned difference cannot underflow when the cursor jumps past the bound
-			case token.LSS, token.LEQ:
-				txt = fmt.Sprintf("int64(%s) - int64(%s)", types.ExprString(be.Y), types.ExprString(be.X))
-			case token.GTR, token.GEQ:
-				txt = fmt.Sprintf("int64(%s) - int64(%s)", types.ExprString(be.X), types.ExprString(be.Y))
+			// narrow operands are measured in int64 so that an unsigned difference cannot underflow when the cursor jumps
+			// past the bound; 64-bit operands keep their own type (signed or unsigned comparison of the difference)
+			case token.LSS:
+				txt = fmt.Sprintf("vdiff(%s, %s)", types.ExprString(be.Y), types.ExprString(be.X))
+			case token.LEQ:
+				txt = fmt.Sprintf("vdiff(%s, %s) + 1", types.ExprString(be.Y), types.ExprString(be.X))
+			case token.GTR:
+				txt = fmt.Sprintf("vdiff(%s, %s)", types.ExprString(be.X), types.ExprString(be.Y))
+			case token.GEQ:
+				txt = fmt.Sprintf("vdiff(%s, %s) + 1", types.ExprString(be.X), types.ExprString(be.Y))
 			}
 			if txt != "" {
 				if f, err := parseFormula(txt); err == nil {
